@@ -74,3 +74,204 @@ class TracebackFormatExc:
     """text of the exception being handled (only logged)"""
     returns = 'str'
     params = []
+# ----------------------------------------------------------------------------------------------------------------------
+# C18: string parsers, regular expressions, xml element accessors.  Results are (uninterpreted) functions of the
+# arguments: uf('name', type, args...) names that function so that specifications can speak about "the value the text
+# parses to" without any model of string contents.  Partial functions raise exactly their documented exceptions.
+# ----------------------------------------------------------------------------------------------------------------------
+@external('builtins.int')
+class BuiltinInt:
+    """int(text): the integer the text denotes, ValueError when it denotes none (TypeError for None: precondition)"""
+    returns = 'int'
+    params = ['x']
+    raises = ('ValueError',)
+
+    def pre_not_none(x):
+        return x is not None
+
+    def post_value(x, result):
+        return uf('int_parses', bool, x) and result == uf('int_value', int, x)
+
+    def exc_ValueError_not_an_int(x, exc):
+        return not uf('int_parses', bool, x)
+
+
+@external('builtins.float')
+class BuiltinFloat:
+    """float(text): ANY binary64 value the text denotes - 'nan', 'inf', '-inf', '1e999' are accepted by CPython -
+    ValueError when it denotes none"""
+    returns = 'fp64'
+    params = ['x']
+    raises = ('ValueError',)
+
+    def pre_not_none(x):
+        return x is not None
+
+    def post_value(x, result):
+        return uf('float_parses', bool, x) and same(result, uf('float_value', 'fp64', x))
+
+    def exc_ValueError_not_a_float(x, exc):
+        return not uf('float_parses', bool, x)
+
+
+@external('distutils.util.strtobool')
+class StrToBool:
+    """1 for y/yes/t/true/on/1, 0 for n/no/f/false/off/0 (case-insensitive), ValueError otherwise"""
+    returns = 'int'
+    params = ['val']
+    raises = ('ValueError',)
+
+    def pre_not_none(val):
+        return val is not None
+
+    def post_value(val, result):
+        return uf('bool_like', bool, val) and result == (1 if uf('bool_value', bool, val) else 0)
+
+    def exc_ValueError_not_boolean_like(val, exc):
+        return not uf('bool_like', bool, val)
+
+
+@external('supervisor.datatypes.integer')
+class SupervisorInteger:
+    """supervisor.datatypes.integer = int(value) (second attempt through long = int): same partial function"""
+    returns = 'int'
+    params = ['value']
+    raises = ('ValueError',)
+
+    def pre_not_none(value):
+        return value is not None
+
+    def post_value(value, result):
+        return uf('int_parses', bool, value) and result == uf('int_value', int, value)
+
+    def exc_ValueError_not_an_int(value, exc):
+        return not uf('int_parses', bool, value)
+
+
+@external('supervisor.datatypes.boolean')
+class SupervisorBoolean:
+    returns = 'bool'
+    params = ['s']
+    raises = ('ValueError',)
+
+    def post_value(s, result):
+        return uf('sup_bool_like', bool, s) and result == uf('sup_bool_value', bool, s)
+
+    def exc_ValueError_not_boolean_like(s, exc):
+        return not uf('sup_bool_like', bool, s)
+
+
+@external('supervisor.datatypes.byte_size')
+class SupervisorByteSize:
+    returns = 'int'
+    params = ['value']
+    raises = ('ValueError',)
+
+
+@external('supervisor.datatypes.list_of_strings')
+class SupervisorListOfStrings:
+    """[x.strip() for x in arg.split(',')], [] for an empty argument; a new list; ValueError on non-strings"""
+    returns = 'List[str]'
+    params = ['arg']
+    raises = ('ValueError',)
+    fresh = True
+
+
+@external('supervisor.options.split_namespec')
+class SplitNamespec:
+    """(group, process) of 'group:process'; process is None for 'group:*' and 'group:'; ('name', 'name') without colon"""
+    returns = 'Tuple[str, Optional[str]]'
+    params = ['namespec']
+
+    def post_value(namespec, result):
+        return result[0] == uf('ns_group', str, namespec) and result[1] == uf('ns_process', 'Optional[str]', namespec)
+
+
+@external('str.upper')
+class StrUpper:
+    returns = 'str'
+    params = ['s']
+
+    def post_value(s, result):
+        return result == uf('str_upper', str, s)
+
+
+@external('re.search')
+class ReSearch:
+    """None when the pattern matches nowhere in the string, else a Match; re.error when the pattern is not a valid
+    regular expression (TypeError for a None string: precondition)"""
+    returns = 'Optional[Match]'
+    params = ['pattern', 'string']
+    raises = ('re.error',)
+
+    def pre_string(pattern, string):
+        return string is not None and pattern is not None
+
+    def post_value(pattern, string, result):
+        return ((result is not None) == uf('re_search_matches', bool, pattern, string)
+                and uf('re_valid', bool, pattern)
+                and implies(result is not None, result.pattern == pattern and result.string == string))
+
+    def exc_reerror_invalid_pattern(pattern, string, exc):
+        return not uf('re_valid', bool, pattern)
+
+
+@external('re.match')
+class ReMatch:
+    """as re.search, anchored at the start (only called with literal, valid patterns by the code under proof)"""
+    returns = 'Optional[Match]'
+    params = ['pattern', 'string']
+    raises = ('re.error',)
+
+    def pre_string(pattern, string):
+        return string is not None and pattern is not None
+
+    def post_value(pattern, string, result):
+        return ((result is not None) == uf('re_match_matches', bool, pattern, string)
+                and uf('re_valid', bool, pattern)
+                and implies(result is not None, result.pattern == pattern and result.string == string))
+
+    def exc_reerror_invalid_pattern(pattern, string, exc):
+        return not uf('re_valid', bool, pattern)
+
+
+@external('Match.group')
+class MatchGroup:
+    """text captured by the group (0 = whole match); groups that exist in the pattern and took part in the match
+    return a str"""
+    returns = 'str'
+    params = ['mo', 'index']
+    defaults = {'index': 0}
+
+    def post_value(mo, index, result):
+        return result == uf('re_group', str, mo.pattern, mo.string, index)
+
+
+@external('Element.find')
+class ElementFind:
+    """first sub-element matching the path, None if none: a function of the (immutable) document"""
+    returns = 'Optional[Element]'
+    params = ['elt', 'path']
+
+    def post_value(elt, path, result):
+        return result == uf('xml_find', 'Optional[Element]', elt, path)
+
+
+@external('Element.findtext')
+class ElementFindText:
+    """text of the first sub-element matching the path ('' when it has no text), None when there is none"""
+    returns = 'Optional[str]'
+    params = ['elt', 'path']
+
+    def post_value(elt, path, result):
+        return result == uf('xml_text', 'Optional[str]', elt, path)
+
+
+@external('Element.get')
+class ElementGet:
+    """value of the attribute, None when absent"""
+    returns = 'Optional[str]'
+    params = ['elt', 'key']
+
+    def post_value(elt, key, result):
+        return result == uf('xml_attr', 'Optional[str]', elt, key)
